@@ -117,9 +117,9 @@ def _heavy_len(f):
     immediate.  Feasibility pre-checks therefore leave these formulas out (sound: dropping a constraint can only
     make more branches look feasible); proof obligations always use the full path condition."""
     i = f.get_id()
-    r = _HEAVY.get(i)
-    if r is not None:
-        return r
+    hit = _HEAVY.get(i)
+    if hit is not None:
+        return hit[1]      # (the entry keeps the formula alive: z3 recycles the ids of freed terms)
     has_len = big = False
     seen = set()
     st = [f]
@@ -139,7 +139,7 @@ def _heavy_len(f):
     r = has_len and big
     if len(_HEAVY) > 200000:
         _HEAVY.clear()
-    _HEAVY[i] = r
+    _HEAVY[i] = (f, r)
     return r
 
 
